@@ -160,6 +160,7 @@ type xmpStyle struct {
 	quote    byte
 	form     []bool // per property: true = attribute form (simple properties only)
 	pad      func() string
+	emptyArr func() string // "" or an empty array of a foreign property (self-closing or open/close form) to put between elements
 	junk     string
 	nlIndent bool
 }
@@ -185,6 +186,9 @@ func serialiseXMP(c *Ctx, props []xprop, st xmpStyle) []byte {
 	}
 	b.WriteString(">" + st.pad())
 	for i, p := range props {
+		if st.emptyArr != nil {
+			b.WriteString(st.emptyArr())
+		}
 		if p.array == "" && !st.form[i] {
 			b.WriteString("<" + p.prefix + ":" + p.name + ">" + p.val + "</" + p.prefix + ":" + p.name + ">" + st.pad())
 		}
@@ -278,6 +282,10 @@ func runC13(c *Ctx) error {
 	for i := 0; i < n; i++ {
 		props := genXProps(c)
 		padSets := [][]string{{""}, {" ", "\n", "\n  ", "   "}, {" ", "\n", "\t", "\r\n", "\r\n\t"}, {" ", "\n", "\n \n", strings.Repeat(" ", 130), strings.Repeat("\n ", 200)}}
+		emptyArrays := c.Rng.Intn(3) == 0
+		if emptyArrays {
+			c.Stat("style.empty-arrays-and-solo-elements")
+		}
 		pi := c.Rng.Intn(len(padSets) + 1)
 		var pads []string
 		if pi < len(padSets) {
@@ -310,6 +318,20 @@ func runC13(c *Ctx) error {
 		}
 		mk := func(attr func(i int) bool) ([]byte, []bool) {
 			st := xmpStyle{quote: []byte{'"', '\''}[c.Rng.Intn(2)], pad: padFn}
+			if emptyArrays {
+				st.emptyArr = func() string {
+					kind := []string{"Bag", "Seq", "Alt"}[c.Rng.Intn(3)]
+					switch c.Rng.Intn(6) {
+					case 0:
+						return "<foo:tags><rdf:" + kind + "/></foo:tags>" + padFn()
+					case 1:
+						return "<foo:tags>" + padFn() + "<rdf:" + kind + "></rdf:" + kind + ">" + padFn() + "</foo:tags>"
+					case 2:
+						return "<foo:solo/>" + padFn()
+					}
+					return ""
+				}
+			}
 			st.junk = []string{"", "<?xpacket begin=\"\" id=\"W5M0MpCehiHzreSzNTczkc9d\"?>\n", "junk < not a tag <y:z> " + strings.Repeat("#", c.Rng.Intn(3000)),
 				"<", "<<", "<y:z>", "<!-- c --><a>", "<?xpacket begin=\"\"?>", "x:xmpmeta <x:xmpmet", strings.Repeat("<", 1+c.Rng.Intn(12))}[c.Rng.Intn(10)]
 			for i := range props {
